@@ -424,3 +424,11 @@ def check_consumers(facts, res):
             res.violation("S5", "%s|extension-mismatch" % name,
                           "%s lists packs with %r but the loader re-appends %r (PACK_EXTENSION=%r); listed names must arrive stripped" % (name, listed, appended, pe), b.loc())
     res.floor("S5", "pack listing consumers", n, 2)
+
+
+FIXTURE_EXPECT = ['unguarded-map', 'no-suffix-strip', 'ranged-read-shape']
+
+
+def thorough(res):
+    from .. import engine
+    engine.sensitivity("C17", res)
